@@ -24,20 +24,24 @@ def _on_alarm(signum, frame):
     raise AlarmTimeout()
 
 
+_INSTALLED = [False]
+
+
 def with_alarm(fn, seconds: float):
-    """Returns (value, None) or (None, 'alarm')."""
-    old = signal.signal(signal.SIGALRM, _on_alarm)
-    signal.setitimer(signal.ITIMER_REAL, seconds)
+    """Returns (value, None) or (None, 'alarm'). The handler is installed once per process."""
+    if not _INSTALLED[0]:
+        signal.signal(signal.SIGALRM, _on_alarm)
+        _INSTALLED[0] = True
+    setit = signal.setitimer
+    setit(signal.ITIMER_REAL, seconds)
     try:
         try:
             v = fn()
         finally:
-            signal.setitimer(signal.ITIMER_REAL, 0)
+            setit(signal.ITIMER_REAL, 0)
         return v, None
     except AlarmTimeout:
         return None, "alarm"
-    finally:
-        signal.signal(signal.SIGALRM, old)
 
 
 _TOOL = 3
@@ -84,3 +88,52 @@ def guarded(fn, seconds: float = 2.0, fuel: int = 20_000_000):
     if why is None:
         return v, None
     return None, "nontermination"
+
+
+def run(fn, seconds: float = 2.0, fuel: int = 20_000_000):
+    """Call the solver under the termination guard and catch its exceptions.
+
+    Returns (value, None) | (None, 'nontermination') | (None, 'raised <Type>: <msg>')."""
+
+    def wrapped():
+        try:
+            return fn(), None
+        except Exception as ex:  # noqa: BLE001
+            return None, f"raised {type(ex).__name__}: {ex}"
+
+    v, verdict = guarded(wrapped, seconds, fuel)
+    if verdict:
+        return None, verdict
+    return v
+
+
+class SolverHang(Exception):
+    """Raised by call() when the solver did not return within the fuel budget (a deterministic verdict)."""
+
+
+HANGS = [0]
+
+
+def call(fn, seconds: float = 2.0, fuel: int = 20_000_000):
+    """Run fn under the termination guard; the solver's own exceptions propagate, a non-returning call raises
+    SolverHang (so callers that already report exceptions as violations report hangs the same way)."""
+    box = {}
+
+    def wrapped():
+        try:
+            return fn()
+        except Exception as ex:  # noqa: BLE001
+            box["ex"] = ex
+            return None
+
+    v, verdict = guarded(wrapped, seconds, fuel)
+    if verdict:
+        HANGS[0] += 1
+        raise SolverHang("nontermination: the call did not return within the fuel budget")
+    if "ex" in box:
+        raise box["ex"]
+    return v
+
+
+def too_many_hangs(limit: int = 2) -> bool:
+    return HANGS[0] >= limit
